@@ -131,6 +131,45 @@ NEEDS = {
  "revert-D6": ("C05", "reverse of fix 2a43633 (UnifiedDiff::to_writer goes through Display)", "[u8] line diff with invalid UTF-8 written with to_writer"),
  "revert-D7": ("C06", "reverse of fix 5745354 ([u8] unicode tokenizers return U+FFFD tokens)", "[u8] with invalid UTF-8, unicode words / graphemes"),
  "revert-D8": ("C12", "reverse of fix 6a43cf1 (n * 2 overflow in group_diff_ops)", "context radius > usize::MAX / 2"),
+ "C01-G": ("C01", "patience.rs diff_deadline: 'sequence diffed against itself' shortcut when old and new have the same ADDRESS (both cast to *const u8) and equal ranges -> one equal for the whole range", "two DIFFERENT lookup types that are views of one object at one address (e.g. a repr(transparent) reversed view of a Vec against the Vec itself), equal ranges, Patience"),
+ "C01-H": ("C01", "utils.rs common_prefix_len / common_suffix_len compare through `ptr::eq(item refs) || new == old`", "items that are not equal to themselves (f64 NaN; myers::diff / lcs::diff only need PartialEq) AND old and new indexing the same buffer at the same positions"),
+ "C02-G": ("C02", "lcs.rs: the trailing common-suffix Equal computes its new index from old_range.end + new_len - old_len", "Algorithm::Lcs, sub-ranges with DIFFERENT start offsets, a non-empty common suffix"),
+ "C02-H": ("C02", "utils.rs unique(): HashMap::with_capacity(range.end - range.start)", "Patience with a reversed (start > end) empty sub-range such as 5..3: subtraction overflow / capacity overflow panic, while Myers and LCS treat it as empty"),
+ "C03-G": ("C03", "algorithms/mod.rs: diff_slices delegates to diff_slices_deadline, which gains a 'nothing in common' shortcut for N+M > 1024 when max(old) <= min(new) (should be <)", "the algorithms::diff_slices(_deadline) entry points, N+M > 1024, item VALUES with max(old) == min(new) (sorted log windows, constant runs)"),
+ "C03-H": ("C03", "utils.rs: the one-call text helpers (diff_chars, diff_words, diff_lines, ...) build their TextDiff with a hidden .timeout(500 ms)", "only those helpers, and only when the diff takes longer than 500 ms of real time (or, under the virtual clock, at once): a deadline reaches Myers/LCS through an API that takes none"),
+ "C04-G": ("C04", "text/mod.rs TextDiffConfig::diff (>100 tokens): common head/tail trimmed before interning; the suffix is measured against the untrimmed new side", "more than 100 tokens and the SOLE difference is removing one of two adjacent identical blocks (head and tail overlap on the new side)"),
+ "C04-H": ("C04", "lcs.rs: 'OOM guard' for old_len * new_len > u32::MAX without deadline: prefix, myers::diff_deadline for the middle, suffix, then d.finish() a second time", "Algorithm::Lcs, no deadline, token counts whose product exceeds 2^32 (two 70 000-line texts): every op is emitted twice"),
+ "C05-G": ("C05", "udiff.rs UnifiedDiffHunk::to_writer: tag + line coalesced into a 256-byte stack buffer guarded by `bytes.len() <= line.len()`", "a hunk line of exactly 256 bytes (terminator included) through to_writer: panic; 255 / 257 bytes and Display are fine"),
+ "C06-G": ("C06", "abstraction.rs [u8]::tokenize_lines scans in 64 KiB blocks; the LF look-ahead after a CR looks at the block only", "byte input above 64 KiB with a CRLF whose CR is the last byte of a block (offset 65535, 131071, ...)"),
+ "C06-H": ("C06", "abstraction.rs str::tokenize_lines uses a find_line_break helper whose fallback (build WITHOUT the `bytes` feature) gives up when no LF remains", "a build without the `bytes` feature, str input, a lone CR after the last LF"),
+ "C07-G": ("C07", "myers.rs conquer: at the deadline the box is reported with ONE d.replace(..) instead of delete + insert", "expiry mid-run + a Replace adapter fed DIRECTLY by Myers / Patience (Replace::replace forwards without flushing buffered ops): out-of-order ops"),
+ "C07-H": ("C07", "deadline_support.rs duration_to_deadline: Some(Instant::now() + add) instead of checked_add", "TextDiffConfig::timeout(Duration::MAX) / from_secs(u64::MAX): panics where the unchanged code means 'no deadline'"),
+ "C08-G": ("C08", "compact.rs Compact::finish: early return for an empty op buffer forgets self.d.finish()", "a Compact stack and both diffed ranges empty (including empty sub-ranges): the user hook gets no finish"),
+ "C08-H": ("C08", "replace.rs Replace::finish: the result of the final flush is held, self.d.finish()? runs unconditionally, the flush error is returned afterwards", "a hook error on the LAST buffered op behind Replace (also plain Patience, which wraps its hook in Replace): a further call follows the error"),
+ "C09-G": ("C09", "text/mod.rs TextDiffConfig::diff (>100 tokens): IdentifyDistinct is fed token.as_bytes() instead of the tokens", "a user-defined DiffableStr whose Eq is coarser than byte equality (case-insensitive), more than 100 tokens, a slidable insertion"),
+ "C09-H": ("C09", "common.rs capture_diff_deadline: ranges above 100 items are interned through IdentifyDistinct::<u32> (one hash map for both item types)", "heterogeneous old/new item types whose Hash disagrees for cross-equal items, more than 100 items, a slidable insertion"),
+ "C10-G": ("C10", "replace.rs Replace::replace (pass-through) calls flush_del_ins() instead of flush_eq()", "a Replace adapter that RECEIVES replace calls, i.e. Replace stacked on Replace"),
+ "C10-H": ("C10", "hook.rs provided DiffHook::replace: self.insert(old_index, old_index, new_len)", "a hook behind Replace that relies on the provided replace (user hook with only equal/delete/insert, or Replace<Compact<..>>) + a delete next to an insert after an unbalanced edit"),
+ "C11-G": ("C11", "lcs.rs tail emission under a deadline: the Insert after a tail Delete carries the pre-delete old index", "Algorithm::Lcs + a deadline expiring during table construction + compaction moving the inserted block; this is exactly what Myers/Patience already do on the unchanged tree (known finding KF1) - see DESIGN 9.3"),
+ "C11-H": ("C11", "myers.rs diff_deadline: new empty-side fast path takes the carried index from .end of the empty range instead of .start", "a reversed (start > end) empty sub-range such as 5..2 at top level, Myers / Patience"),
+ "C12-G": ("C12", "udiff.rs UnifiedDiffHunk::to_writer: w.write(value) instead of w.write_all(value)", "to_writer into an io::Write that accepts only part of the buffer per call; grouped_ops stay correct - it is the byte writer (C05) that loses bytes"),
+ "C12-H": ("C12", "common.rs group_diff_ops: n = n.min(usize::MAX / 2) and n * 2; the capped radius also feeds the leading/trailing trims", "a first or last equal run LONGER than usize::MAX/2 together with a radius above usize::MAX/2"),
+ "C13-G": ("C13", "iter.rs AllChangesIter::next skips ops for which DiffOp::is_empty() (rewritten with `old_len == 0 || new_len == 0` for Replace)", "whole-hunk iteration (UnifiedDiffHunk::new + iter_changes) over caller-built ops containing a Replace with exactly one empty side"),
+ "C13-H": ("C13", "iter.rs ChangesIter gains an Iterator::fold fast path whose Equal arm adds the offset to the RUNNING new index", "an Equal op, at least one prior next(), then a fold-based consumer (for_each, last, max, fold) that reads new_index()"),
+ "C14-G": ("C14", "text/mod.rs TextDiffConfig::diff (>100 tokens): tokens identified by as_bytes()", "more than 100 tokens of a user-defined DiffableStr whose Eq is not byte equality"),
+ "C14-H": ("C14", "utils.rs IdentifyDistinct::new: Option<last_id> bookkeeping replaced by an eagerly incremented next_id", "the number of distinct items exactly fills Int (256 for u8, 65536 for u16), debug builds: overflow panic"),
+ "C15-G": ("C15", "patience.rs diff_deadline: when >= 15/16 of the items on both sides are unique the anchor pass is skipped and plain Myers runs", "at least 32 items a side, a unique item that crosses repeated ones"),
+ "C15-H": ("C15", "algorithms/mod.rs diff_deadline dispatcher: ranges above 100 items are interned through IdentifyDistinct::<u32>", "heterogeneous item types with different Hash, more than 100 items, the dispatching entry points"),
+ "C16-G": ("C16", "inline.rs push_values: fast path that scans as_bytes() for LF/CR and pushes the slice emphasised if none is found", "a user-defined DiffableStr with a further line terminator (U+2028): an emphasised segment contains the line break"),
+ "C16-H": ("C16", "inline.rs MultiLookup::new: token offsets taken from as_bytes() pointer differences instead of the running len()", "a user-defined DiffableStr whose len()/slice() do not count bytes (character-indexed) with multi-byte text"),
+ "C17-H": ("C17", "text/mod.rs TextDiffConfig::diff (>100 tokens): deadline check after interning; if expired, one whole-input Replace is returned", "more than 100 tokens on one side, the other text EMPTY, a deadline already expired: Replace with a zero-length half -> TextDiffRemapper panics"),
+ "C18-G": ("C18", "text/mod.rs get_close_matches tokenizes with graphemes when the `unicode` feature is on", "a multi-codepoint grapheme cluster in the input (combining mark, CRLF, ZWJ emoji) and a cutoff / tie in the affected window"),
+ "C18-H": ("C18", "text/mod.rs get_close_matches: acceptance test on the truncated u32 score of ratio and cutoff", "a ratio below 2^-9 (two ~1100-char strings sharing one char, low-entropy so that the multiset pre-filter lets them through) and a cutoff one or two ulps above it"),
+ "C19-G": ("C19", "algorithms/mod.rs diff_slices(_deadline): 'nothing in common' pre-pass that sorts the refs of old (Ord) and binary-searches the items of new", "the algorithms::diff_slices entry point, unsorted values, counting Ord comparisons: N log N work even for identical inputs"),
+ "C19-H": ("C19", "patience.rs: the hook's prefix skip became a common_prefix_len over the REMAINING ranges (clamped afterwards)", "Patience on near-identical inputs mixing unique and repeated items: about N^2/4 comparisons"),
+ "C20-G": ("C20", "text/mod.rs TextDiffConfig::diff (>100 tokens): tokens identified by as_bytes()", "a user-defined DiffableStr with case-insensitive Eq, more than 100 tokens, Eq-equal tokens with different bytes"),
+ "C20-H": ("C20", "utils.rs IdentifyDistinct::new: the loop over `new` uses map.get instead of entry, so all new-only items share ONE id", "Patience on ids from IdentifyDistinct (direct, or any text diff above 100 tokens) with >= 2 distinct new-only items and moved unique items"),
+ "revert-D10": ("C02", "reverse of fix 938582c (get_diff_ratio caps below 1.0 unless everything matches)", "more than 2^24 items with a few differences: ratio() == 1.0 for different inputs"),
  "revert-D9": ("C14", "reverse of fix dcb9010 (IdentifyDistinct computes the next id eagerly)", "exactly 256 distinct items with IdentifyDistinct::<u8> (65 536 with u16), debug builds"),
 }
 
@@ -148,7 +187,7 @@ for sid in sorted(os.listdir(os.path.join(ROOT, "seeded"))):
         continue
     prop, what, needs = NEEDS.get(sid, ("?", "?", "?"))
     meta = {"id": sid, "breaks_property": prop, "change": what, "needs_to_manifest": needs,
-            "origin": "reverse patch of a fix: commit in /repo (the historical defect)" if sid.startswith("revert-") else ("independent sub-agent, round 2: given the property text, a scratch worktree and the list of round-1 changes (all caught), asked for changes that are harder to detect" if sid[-1] in "CD" else ("independent sub-agent, round 3: additionally told what the checker evidently covers after two rounds and asked for what it would STILL miss" if sid[-1] in "EF" else "independent sub-agent, round 1: given only the property text and a scratch worktree")),
+            "origin": "reverse patch of a fix: commit in /repo (the historical defect)" if sid.startswith("revert-") else ("independent sub-agent, round 2: given the property text, a scratch worktree and the list of round-1 changes (all caught), asked for changes that are harder to detect" if sid[-1] in "CD" else ("independent sub-agent, round 3: additionally told what the checker evidently covers after two rounds and asked for what it would STILL miss" if sid[-1] in "EF" else "independent sub-agent, round 4: given the list of all earlier changes and of everything the checker evidently covers, asked for cooperating sites, value-dependent conditions, rarely used API surface, feature combinations and differently monomorphised generics" if sid[-1] in "GH" else "independent sub-agent, round 1: given only the property text and a scratch worktree")),
             "ran": []}
     c = os.path.join(d, "confirm.txt")
     if os.path.exists(c):
